@@ -16,7 +16,8 @@ SPEC = {
     ],
     "assumptions": [
         "root ids abstract typed hashes: distinct (type, hash) pairs are distinct ids (no hash collision)",
-        "histories in the domain of the property: a candidate derives from a finalized root of the previous version or from a candidate of the same version; versions are committed in order (wf_step)",
+        "histories in the domain of the property: a candidate derives from a finalized root of the previous version, from a candidate of the same version, or (pipelining, harness only) from a still pending candidate of the previous version that is finalized later; the Coq theorems' wf_step covers the non-pipelined histories (commit version = last finalized + 1), pipelined histories are covered by the correspondence check and the read-back oracle only",
+        "quick tier: pipelined children derive from the first batch of their parent's version and type (pathbadger pending sequence number 0); the thorough tier (-pipeline-any) also uses other parents and reports pathbadger's misread of such children under C06:pathbadger-pipelined-child-of-nonzero-seqno-candidate-misread",
         "badger_refines_spec / badger_finalized_readable hold under the decidable per-step sharing conditions fin_safe and prune_safe (BadgerProofs.v); without them the model - like the real backend - loses nodes (the *_refuted theorems)",
     ],
 }
